@@ -312,13 +312,14 @@ class Recovery:
         self.items = []      # (site, cfg, query, obs dict, scales dict, tol dict)
         self.not_judged = 0
 
-    def add(self, site, cfg, query, obs, scales=None, tols=None):
-        self.items.append((site, cfg, query, obs, scales or {}, tols or {}))
+    def add(self, site, cfg, query, obs, scales=None, tols=None, win=None, ps=None):
+        """win / ps: the automatic BET window the call reported and the rational grid (Rouquerol clause)."""
+        self.items.append((site, cfg, query, obs, scales or {}, tols or {}, win, ps))
 
     def finish(self):
         run = self.run
         judge = []
-        for site, cfg, q, obs, scales, tols in self.items:
+        for site, cfg, q, obs, scales, tols, win, ps in self.items:
             o = []
             for name, v in obs.items():
                 v = float(v)
@@ -326,16 +327,24 @@ class Recovery:
                     run.violation({"site": site, "part": "recovery", "config": cfg, "output": name, "wrong": "non-finite output"}, {"query": q, "obs": obs})
                     continue
                 o.append([name, dec_enc(v), dec_enc(scales.get(name, 0.0)), TOLK if tols.get(name, TOL) <= 10.0 ** (-TOLK) else 3])
-            judge.append(dict(q, k="judge", tolk=TOLK, obs=o))
+            j = dict(q, k="judge", tolk=TOLK, obs=o, win=[int(win[0]), int(win[1])] if win is not None else [-1, -1])
+            if win is not None:
+                j["ps"] = ps
+            judge.append(j)
         answers = tlc.oracle("LinearisedOracle", judge, timeout=600, chunk=4000) if judge else []
         worst = {}
-        for (site, cfg, q, obs, scales, tols), a in zip(self.items, answers):
+        for (site, cfg, q, obs, scales, tols, win, ps), a in zip(self.items, answers):
             exp = a["expect"]
             bad_spec = set(a["bad"]) if isinstance(a["bad"], list) else set()
+            if "rouquerol_window" in bad_spec:
+                run.violation({"site": site, "part": "recovery", "config": cfg, "output": "window", "wrong": "automatic window is not the Rouquerol window of the exact data"},
+                              {"query": q, "observed_window": [int(win[0]), int(win[1])], "points": len(ps), "last_pressure": ps[-1]})
             for name, v in obs.items():
                 v = float(v)
                 if not math.isfinite(v):
                     continue
+                if not exp.get(name) and name != "area":
+                    continue                       # not supplied by the specification (irrational p_monolayer)
                 if name == "area" and "area_over_NA18" in exp:
                     e = float(prod(exp["area_over_NA18"]) * NA18)
                 else:
@@ -397,7 +406,9 @@ def recovery(run, rng, thorough, seed):
     i = 0
     for nm, c, sg, g in itertools.product(NM, CS, SIG, GRIDS):
         i += 1
-        if keep(i):
+        # dense grids up to 0.99 with high C (Rouquerol steps of a few 1e-6) are run in every tier and for every seed
+        dense = c >= 1600 and g[-1] >= Fraction(98, 100) and sg == Fraction(81, 500)
+        if keep(i) or dense:
             scen.append({"k": "gen", "m": "bet", "nm": renc(nm), "c": c, "sigma": renc(sg), "ps": [renc(p) for p in g]})
     for nm, kk, sg, g in itertools.product(NM, KS, SIG, GRIDS):
         i += 1
@@ -447,13 +458,19 @@ def recovery(run, rng, thorough, seed):
                 if q["m"] == "bet":
                     r = area_BET_raw(p, n, float(sg), lim)
                     obs = dict(area=r[0], c_const=r[1], n_monolayer=r[2], p_monolayer=r[3], slope=r[4], intercept=r[5], corr_coef=r[8])
-                    rec.add("area_BET_raw", lname, q0, obs)
+                    if not a["expect"]["p_monolayer"]:
+                        obs.pop("p_monolayer")
+                    auto = dict(win=(r[6], r[7]), ps=q["ps"]) if lim is None else {}
+                    rec.add("area_BET_raw", lname, q0, obs, **auto)
                     if iso is None:
                         iso = point_isotherm(p, n, adsorbate=adsname, temperature=77.355)
                     d = area_BET(iso, p_limits=lim)
                     obs = dict(area=d["area"], c_const=d["c_const"], n_monolayer=d["n_monolayer"], p_monolayer=d["p_monolayer"],
                                slope=d["bet_slope"], intercept=d["bet_intercept"], corr_coef=d["corr_coef"])
-                    rec.add("area_BET", lname, q0, obs)
+                    if not a["expect"]["p_monolayer"]:
+                        obs.pop("p_monolayer")
+                    auto = dict(win=d["p_limit_indices"], ps=q["ps"]) if lim is None else {}
+                    rec.add("area_BET", lname, q0, obs, **auto)
                 else:
                     r = area_langmuir_raw(p, n, float(sg), lim)
                     obs = dict(area=r[0], langmuir_const=r[1], n_monolayer=r[2], slope=r[3], intercept=r[4], corr_coef=r[7])
@@ -631,6 +648,8 @@ def recovery(run, rng, thorough, seed):
                         obs = dict(pore_volume=r[0], adsorption_potential=r[1], exponent=r[2])
                     rec.add(site, cfg, q0, obs, None, tols)
     _t("  da")
+    history(run, rec, alpha_s, t_plot, da_plot, dr_plot, DA, DR)
+    _t("  history")
     rec.finish()
     _t("  judge")
     run.add("recovery_not_judged_refused_or_no_section", rec.not_judged)
